@@ -389,6 +389,9 @@ func (r *Recomposer) recomp(v any, rv reflect.Value) {
 			// actual type of the element value if the slice input is []any.
 			ev := vv.Index(i).Interface()
 			ri := rv.Index(i)
+			if ev == nil && ri.Kind() == reflect.Ptr { // a null element stays a nil pointer
+				continue
+			}
 			r.setValue(ev, ri, nil)
 		}
 	case reflect.Map:
